@@ -298,6 +298,15 @@ func checkPoolOrderSSA(c *core.Ctx, p *progFacts, rule string, f *ssa.Function) 
 			if !pos.IsValid() {
 				pos = g.Pos()
 			}
+			if !ok {
+				// the structural patterns (index-keyed map, slot store) are sufficient, not necessary: a consumer that
+				// re-orders another way (sliding window, in-turn fast path) is decided by interpreting it on every arrival
+				// order of a batch
+				if decided, independent := arrivalOrderDecides(c, fnKey(topFunc(g))); decided && independent {
+					c.Note("%s: re-order pattern not recognised structurally (%s); decided by interpretation over all 24 arrival orders", fnKey(g), why)
+					ok, why = true, ""
+				}
+			}
 			c.Ob(fmt.Sprintf("%s/%s/consumer/%s", rule, fnKey(f), fnKey(g)), ok, pos, "%s", why)
 		}
 	}
